@@ -101,6 +101,24 @@ func extractorOps(doc string) []operation {
 				IncludeChunkSeparators: true, IncludePageNumbers: true, IncludeChunkIDs: true, HeadingLevelOffset: 1, MaxHeadingLevel: 6, SectionSeparator: "\n\n---\n\n"})
 			return fmt.Sprintf("%q %v", t, err)
 		}},
+		{doc + ":Chunks.CSV.fields", func(dir string) string {
+			// an export with a non-default configuration: chosen metadata fields, no header, TSV and JSON too
+			c, _, err := open(dir).Chunks()
+			if err != nil {
+				return "error: " + err.Error()
+			}
+			var out strings.Builder
+			for _, f := range []rag.ExportFormat{rag.ExportFormatCSV, rag.ExportFormatTSV, rag.ExportFormatJSON} {
+				cfg := rag.DefaultExportConfig()
+				cfg.Format = f
+				cfg.IncludeMetadata = true
+				cfg.MetadataFields = []string{"section_path", "element_types", "level", "word_count", "page_start", "document_title"}
+				var b strings.Builder
+				err := rag.NewExporterWithConfig(cfg).Export(c.Chunks, &b)
+				fmt.Fprintf(&out, "%q %v\n", b.String(), err)
+			}
+			return out.String()
+		}},
 		{doc + ":Text.xhf", func(dir string) string {
 			t, _, err := open(dir).ExcludeHeadersAndFooters().Text()
 			return fmt.Sprintf("%q %v", t, err)
@@ -256,6 +274,7 @@ func operations() []operation {
 		"forms.pdf":    {"Text", "ToMarkdown"},
 		"hf.pdf":       {"Text", "Text.xhf", "ToMarkdown"},
 		"samebase.pdf": {"Text"},
+		"hex.pdf":      {"Text"},
 		"a.docx":       {"Text", "ToMarkdown", "Chunks.JSONL", "Chunks.CSV"},
 		"a.xlsx":       {"Text", "ToMarkdown", "Chunks.CSV"},
 		"a.pptx":       {"Text", "ToMarkdown", "Chunks.CSV"},
@@ -264,6 +283,9 @@ func operations() []operation {
 		for _, o := range extractorOps(d) {
 			want, restricted := keep[d]
 			ok := !restricted && !strings.HasSuffix(o.name, ":Text.xhf") && !strings.HasSuffix(o.name, ":Chunks.CSV")
+			if strings.HasSuffix(o.name, ":Chunks.CSV.fields") {
+				ok = map[string]bool{"a.pdf": true, "a.docx": true, "a.html": true}[d]
+			}
 			if strings.HasSuffix(o.name, ":ToMarkdown.all") {
 				ok = map[string]bool{"a.pdf": true, "ties.pdf": true, "hf.pdf": true, "a.docx": true, "a.odt": true, "a.xlsx": true, "a.pptx": true, "a.epub": true, "a.html": true}[d]
 			}
